@@ -215,7 +215,9 @@ class Translator:
                              ast.Tuple, ast.List, ast.Dict, ast.Set, ast.Starred, ast.Slice, ast.NamedExpr)):
             quiet_not = isinstance(node, ast.UnaryOp) and isinstance(node.op, ast.Not) and (
                 isinstance(node.operand, ast.Name) or self._self_rooted(node.operand))
-            if isinstance(node, (ast.Subscript, ast.BinOp, ast.Compare, ast.JoinedStr, ast.FormattedValue, ast.UnaryOp)) and not quiet_not:
+            identity_test = isinstance(node, ast.Compare) and all(isinstance(o, (ast.Is, ast.IsNot)) for o in node.ops)   # runs no user code
+            if isinstance(node, (ast.Subscript, ast.BinOp, ast.Compare, ast.JoinedStr, ast.FormattedValue, ast.UnaryOp)) and not quiet_not \
+                    and not identity_test:
                 opaque.append(type(node).__name__.lower())      # __getitem__, __add__, __eq__, __format__ of host values may raise
             for child in ast.iter_child_nodes(node):
                 if isinstance(child, ast.expr):
